@@ -277,8 +277,25 @@ def reply_bytes(declared, nbody, prefix):
             body[i] = bv(c, 8)
     return [bv(declared >> 8, 8), bv(declared & 0xff, 8)] + body
 
+ENCODER_ONLY = False
+
 def scenarios(tier):
     """yield (description, ulen, plen, env-factory)"""
+    if ENCODER_ONLY:
+        # C13 clause 6: only the request bytes matter; one benign reply script, more length pairs
+        lens = [(0, 0), (1, 1), (2, 16), (16, 2), (254, 255), (255, 254), (255, 256), (256, 255), (256, 256), (256, 257), (257, 256), (257, 300)]
+        if tier == "thorough":
+            lens += [(300, 1), (1, 300), (3, 2000)]
+        for (ulen, plen) in lens:
+            def mk():
+                return dict(socket_ok=True, connect_ok=True, write_plan=[], wselect=[], reads=[("data", 4), ("close",)],
+                            reply=reply_bytes(2, 2, b"OK"), rpos=0)
+            yield ("encoder user=%d password=%d" % (ulen, plen), ulen, plen, mk)
+            def mk2():
+                return dict(socket_ok=True, connect_ok=True, write_plan=["short", "all", "short"], wselect=[], reads=[("data", 4), ("close",)],
+                            reply=reply_bytes(2, 2, b"OK"), rpos=0)
+            yield ("encoder user=%d password=%d short writes" % (ulen, plen), ulen, plen, mk2)
+        return
     lens = [(1, 1), (0, 0), (255, 256), (256, 257), (257, 300)]
     if tier == "thorough":
         lens += [(300, 255), (3, 2000)]
@@ -329,7 +346,15 @@ def main():
     ap.add_argument("--noreplay", action="store_true")
     ap.add_argument("--no-evidence", action="store_true")
     ap.add_argument("--prop", default="C20")
+    ap.add_argument("--encoder-only", action="store_true", help="C13 clause 6: only the request-encoder obligation; merged into the existing evidence file")
+    # the same spellings as gosym, so that ./check can pass its extra arguments through
+    ap.add_argument("-repo", dest="repo")
+    ap.add_argument("-evidence", dest="evidence_flag", default="true")
+    ap.add_argument("-unit-seconds", dest="unit_seconds", default=None)
+    ap.add_argument("-unit", dest="unit", default=None)
     a = ap.parse_args()
+    if a.evidence_flag == "false":
+        a.no_evidence = True
     t0 = time.time()
     seed = int(os.environ.get("VERIF_SEED", "0") or 0)
     work = tempfile.mkdtemp(prefix="llsym")
@@ -340,7 +365,8 @@ def main():
 
 def run_scenarios(argt):
     """worker: runs the scenarios with index % nw == wi; returns plain (picklable) results"""
-    repo, tier, wi, nw, irtext = argt
+    global ENCODER_ONLY
+    repo, tier, wi, nw, irtext, ENCODER_ONLY = argt
     mod = llsym.Module(irtext)
     stubs = Stubs()
     total = llsym.Stats()
@@ -414,14 +440,18 @@ def run_scenarios(argt):
 
 def run(a, work, t0, seed):
     import multiprocessing
+    global ENCODER_ONLY
+    ENCODER_ONLY = a.encoder_only
     text = compile_ir(a.repo, work)
     nw = min(16, os.cpu_count() or 1)
     with multiprocessing.Pool(nw) as pool:
-        parts = pool.map(run_scenarios, [(a.repo, a.tier, i, nw, text) for i in range(nw)])
+        parts = pool.map(run_scenarios, [(a.repo, a.tier, i, nw, text, a.encoder_only) for i in range(nw)])
     total = llsym.Stats()
     obligations = sum(p["obligations"] for p in parts)
     discharged = sum(p["discharged"] for p in parts)
     violations = [v for p in parts for v in p["violations"]]
+    if a.encoder_only:
+        violations = [v for v in violations if v["assert_id"] in ("request-bytes-equal-the-go-encoder", "no-memory-errors", "inconclusive", "returns-within-bounded-time")]
     violations.sort(key=lambda v: (v["assert_id"], v["scenario"]))
     samples = [s for p in parts for s in p["samples"]][:10]
     nscen = sum(p["nscen"] for p in parts)
@@ -479,7 +509,28 @@ def run(a, work, t0, seed):
               assumptions=["libc/syscall stubs follow the man pages: read returns -1, 0 or 1..len and does not touch errno on success; select returns -1/EINTR, 0 or 1; errno is arbitrary on entry",
                            "logging (_whawty_logf) has an empty body", "strings passed in are NUL-terminated with non-NUL content"],
               wall_s=round(wall, 2), violations=nviol)
-    if not a.no_evidence:
+    if not a.no_evidence and a.encoder_only:
+        # merge into the evidence file the Go-side check of this property has just written
+        path = os.path.join(a.verif, "evidence", a.prop + ".json")
+        try:
+            base = json.load(open(path))
+        except Exception:
+            base = None
+        if base is not None:
+            cov = base["coverage"]
+            cov["pam_encoder_llsym"] = dict(scenarios=nscen, paths=total.paths, solver_queries=total.queries, solver_s=round(total.solver_s, 2),
+                                            obligations=obligations, discharged=discharged, functions_encoded=sorted(total.funcs),
+                                            bounds="user/password lengths " + ", ".join("(%d,%d)" % (u, p) for (_, u, p, _) in list(scenarios(a.tier))[::2]) + "; arbitrary non-NUL bytes; whole and short writes",
+                                            explanation="clause 6: the bytes pam_whawty.c writes (clang -O0 LLVM IR, symbolically executed) equal be16(len)+bytes per field as the Go encoder produces them",
+                                            samples=samples[:3], violations=nviol, wall_s=round(wall, 2))
+            for k in ("obligations", "discharged"):
+                if isinstance(cov.get(k), int):
+                    cov[k] += obligations if k == "obligations" else discharged
+            base["wall_s"] = round(base.get("wall_s", 0) + wall, 2)
+            if isinstance(base.get("violations"), int):
+                base["violations"] += nviol
+            json.dump(base, open(path, "w"), indent=1)
+    elif not a.no_evidence:
         os.makedirs(os.path.join(a.verif, "evidence"), exist_ok=True)
         json.dump(ev, open(os.path.join(a.verif, "evidence", a.prop + ".json"), "w"), indent=1)
     print("RESULT property=%s tier=%s scenarios=%d paths=%d queries=%d obligations=%d discharged=%d violations=%d known=%d inconclusive=%d wall=%.1fs" %
